@@ -1,6 +1,6 @@
 (* the single place with extraction directives: ExtrOcamlBasic only (bool, option, unit, list, prod,
    sumbool mapped to OCaml's); nat, positive, Z stay the extracted inductives; no Extract Constant. *)
-From TrV Require Import Calc Spec.
+From TrV Require Import Calc Spec Params Render Osrm Loader.
 Require Import Extraction ExtrOcamlBasic.
 Extraction Language OCaml.
 
@@ -9,4 +9,6 @@ Extraction "Extract/model.ml" conn_set calc_single alternatives calc_allnodes fi
   wf_data_b pos_hops_b uniform_wait_b wf_tables_b wf_params_b valid_itinerary_b limits_ok_b totals_ok_b
   earliest_arrival_ref latest_departure_ref reach_map_fwd_ref reach_map_rev_ref
   service_from_origin_b service_to_destination_b route_lines sort_nat list_eqb
-  optimize OPT_FUEL find_conn emit minw_true delete_excluded all_inclusive.
+  optimize OPT_FUEL find_conn emit minw_true delete_excluded all_inclusive
+  create_route create_access handle_route handle_access handle_update response_code stoi stod_ok
+  summary_lines osrm_rows handle_lookups load_nodes derive_rfp load_schedules data_status.
